@@ -64,8 +64,9 @@ def exec_stream(tier, rng, P, only=None, cases=None):
                 for x, y in zip(ea, eb):
                     if x == y: continue
                     px, py = x.split(":"), y.split(":")
-                    # glide samples of tied groups come from f32 products: compared with tolerance 1
-                    if px[0] == "pb" and py[0] == "pb" and px[1:3] == py[1:3] and abs(int(px[3]) - int(py[3])) <= 1: continue
+                    # glide samples of tied groups come from f32 products: compared with tolerance 1 (relative 2^-21 for values far outside the
+                    # bend range, where one unit in the last place of a binary32 is more than 1)
+                    if px[0] == "pb" and py[0] == "pb" and px[1:3] == py[1:3] and abs(int(px[3]) - int(py[3])) <= max(1, abs(int(px[3])) >> 21): continue
                     return ("mismatch", "track %d: event %s, model %s" % (ti, x, y))
         return None
     def nt(c, impl, m):
